@@ -236,6 +236,75 @@ def revealModel (p x seed : Nat) (excluded attacker dest : Option Nat) (delta : 
     | none => "fail")
   String.intercalate "," outs
 
+
+/-! ### openings through the `Reveal` impls -/
+
+/-- `Boolean` arrays / `BAn`: add = sub = xor on the integer of the little-endian bytes. -/
+def xorAlg : Alg Nat :=
+  { zero := 0, one := 1, add := Nat.xor, sub := Nat.xor, mul := Nat.land, neg := id }
+
+/-- lane-wise operations on vectors (`N`-lane arrays; the elements of a `BitDecomposed`). -/
+def vecAlg (A : Alg Nat) (n : Nat) : Alg (List Nat) :=
+  { zero := List.replicate n A.zero, one := List.replicate n A.one, add := List.zipWith A.add,
+    sub := List.zipWith A.sub, mul := List.zipWith A.mul, neg := List.map A.neg }
+
+/-- (element operations, number of distinct element values) of a value type; `RP25519` = the Ristretto group, written
+additively as the scalars modulo its prime order ℓ (external primitive: `s ↦ s·G` is a group isomorphism). -/
+def vtypeAlg (vtype : String) : Option (Alg Nat × Nat) :=
+  let base := (splitField vtype).1
+  if base == "RP25519" then some (modAlg ell, ell)
+  else if base == "Boolean" then some (xorAlg, 2 ^ (splitField vtype).2)
+  else if base.startsWith "BA" then ((base.drop 2).toString.toNat?).map (fun b => (xorAlg, 2 ^ b))
+  else (primeOf1 base).map (fun p => (modAlg p, p))
+
+def showOuts (l : List (Option (Option (List Nat)))) : String :=
+  String.intercalate "," (l.map (fun o => match o with
+    | none => "none"
+    | some none => "fail"
+    | some (some v) => "ok:" ++ String.intercalate "+" (v.map toString)))
+
+/-- predicted per-helper outcome of one opening through the impl `(ctx, sharing)`; `xs`, `ds` = the elements (lanes)
+of the shared value and of the error helper `at'` adds to the copy it sends to `dest`. -/
+def revImplModel (ctx sharing vtype : String) (seed : Nat) (xs ds : List Nat)
+    (excluded attacker dest : Option Nat) : Option String := do
+  let fn ← resolveImpl ctx sharing
+  let (A1, card) ← vtypeAlg vtype
+  let n := xs.length
+  let A := vecAlg A1 n
+  let col (f : World Nat → Nat) : List Nat := xs.zipIdx.map (fun xi => f (shareOf A1 card xi.1 (seed + 17 * xi.2 + 1)))
+  let w : World (List Nat) :=
+    ⟨⟨col (·.h1.l), col (·.h1.r)⟩, ⟨col (·.h2.l), col (·.h2.r)⟩, ⟨col (·.h3.l), col (·.h3.r)⟩⟩
+  let dl := (List.range n).map (fun i => (ds.getD i 0) % card)
+  match attacker, dest with
+  | some at', some d =>
+    let c := at' - 1
+    let toLeft := d - 1 == (c + 2) % 3
+    -- is the attacked copy ever sent?  not to an excluded helper; the one-copy opening only sends to the right
+    let sent := excluded != some d && d != at' &&
+      (match fn with
+        | .twoCopy => true
+        | .oneCopy => !toLeft
+        | _ => false)
+    if !sent then pure "untouched" else
+    let mL := if toLeft then A.add (revealMsgToLeft (view w c)) dl else revealMsgToLeft (view w c)
+    let mR := if toLeft then revealMsgToRight (view w c) else A.add (revealMsgToRight (view w c)) dl
+    let outs := [1, 2, 3].map (fun role =>
+      if excluded == some role then none else some (revealVia A fn w c (role - 1) mL mR))
+    -- element-wise sharings with an altered copy: only the receiving helper is reported (see the harness)
+    if sharing.startsWith "BitDecomposed" && dl.any (· ≠ 0) then
+      pure (String.intercalate "," ([1, 2, 3].map (fun role =>
+        if role == d then showOuts [outs.getD (role - 1) none] else "~")))
+    else pure (showOuts outs)
+  | _, _ =>
+    pure (showOuts ([1, 2, 3].map (fun role =>
+      if excluded == some role then none
+      else some (revealVia A fn w 0 (role - 1) (revealMsgToLeft (view w 0)) (revealMsgToRight (view w 0))))))
+
+/-- the instances `ctx/sharing`, sorted -/
+def implIds : String :=
+  let ids := resolvedImpls.map (fun r => r.1 ++ "/" ++ r.2.1)
+  String.intercalate "," (ids.toArray.qsort (· < ·)).toList
+
 /-! ### handlers -/
 
 def handle (toks : List String) : Option String :=
@@ -277,6 +346,14 @@ def handle (toks : List String) : Option String :=
       let p ← primeOf f
       let seed ← seed.toNat?; let x ← x.toNat?; let delta ← delta.toNat?
       pure (revealModel p x seed (← role? ex) (← role? at') (← role? dest) delta)
+  | ["c04.revimpl", ctx, sharing, vtype, _entry, seed, x, ex, at', dest, delta] => do
+      let seed ← seed.toNat?
+      let xs ← plusList x; let ds ← plusList delta
+      revImplModel ctx sharing vtype seed xs ds (← role? ex) (← role? at') (← role? dest)
+  | ["c04.revimpls"] => some implIds
+  | "c04.prf" :: _ => some "judge"
+  | "c04.adaptive" :: _ => some "judge"
+  | "c04.rbatch" :: _ => some "judge"
   | _ => none
 
 /-! ### oracle (spec side, plain arithmetic) -/
@@ -349,6 +426,79 @@ def oracle (toks : List String) (impl : String) : Option String :=
         else o != "ok:" ++ toString (x % p))
       pure (if bad.isEmpty then "holds" else "fails helper " ++ toString (bad.headD 0) ++
         " opened a wrong value / did not detect differing copies")
+  | ["c04.revimpl", ctx, _sharing, vtype, _entry, _seed, x, ex, at', dest, delta] => do
+      let ex ← role? ex; let at' ← role? at'; let dest ← role? dest
+      let ds ← plusList delta
+      let card := ((vtypeAlg vtype).map (·.2)).getD 1
+      let tampered := at'.isSome && dest.isSome && ds.any (fun d => d % card ≠ 0)
+      -- the requirement concerns the contexts of the malicious modes (named in the property: the MAC context; the same
+      -- impl pattern serves the sharded MAC context and the DZKP context); semi-honest contexts open with one copy
+      let malicious := (ctx.splitOn "Malicious").length > 1
+      if !malicious then pure "holds semi-honest context: no requirement" else
+      if impl == "untouched" then
+        pure (if dest.isSome && dest == ex then "holds nothing is sent to an excluded helper"
+              else if !tampered && at'.isNone then "fails malformed response"
+              else "fails the copy from helper " ++ toString (at'.getD 0) ++ " to helper " ++ toString (dest.getD 0) ++
+                " was never sent: helper " ++ toString (dest.getD 0) ++ " opens a value without a second copy to compare")
+      else
+      let outs := impl.splitOn ","
+      if outs.length ≠ 3 then pure "fails malformed response" else
+      let bad := [1, 2, 3].filter (fun role =>
+        let o := outs.getD (role - 1) ""
+        if ex == some role then o != "none" && o != "~"
+        else if tampered && dest == some role then o != "fail"   -- the two copies differ: no value may be returned
+        else if at' == some role then false                      -- the deviating helper's own output is not constrained
+        else o != "ok:" ++ x && o != "~")
+      pure (if bad.isEmpty then "holds" else "fails helper " ++ toString (bad.headD 0) ++
+        " returned `" ++ outs.getD (bad.headD 0 - 1) "" ++ "`: a wrong value was opened / differing copies were not detected (MaliciousRevealFailed expected at the helper that received the altered copy)")
+  | ["c04.prf", _lanes, _seed, _x, _k, at', dest, _step, delta] => do
+      -- eval_dy_prf opens R through `Reveal<UpgradedMaliciousContext> for Replicated` and z through `… for
+      -- MaliciousReplicated`: the helper that receives an altered copy must fail; honest runs return the pseudonyms
+      let at' ← role? at'; let dest ← role? dest
+      let ds ← plusList delta
+      let tampered := at'.isSome && dest.isSome && ds.any (fun d => d % ell ≠ 0)
+      if impl == "untouched" then pure "fails the copy to be altered was never sent: the receiving helper opens without a second copy" else
+      match impl.splitOn " " with
+      | [rf, hs] =>
+        let want := "ok:" ++ (rf.drop 4).toString
+        let outs := hs.splitOn ","
+        if outs.length ≠ 3 || !rf.startsWith "ref:" then pure "fails malformed response" else
+        let bad := [1, 2, 3].filter (fun role =>
+          let o := outs.getD (role - 1) ""
+          if tampered then (if dest == some role then o != "fail" else o != "~" && o != want)
+          else o != want)
+        pure (if bad.isEmpty then "holds" else "fails helper " ++ toString (bad.headD 0) ++ " returned `" ++
+          outs.getD (bad.headD 0 - 1) "" ++ "` from eval_dy_prf (expected " ++
+          (if tampered && dest == some (bad.headD 0) then "MaliciousRevealFailed: it received an altered copy" else want) ++ ")")
+      | _ => pure "fails malformed response"
+  | ["c04.revimpls"] =>
+      pure (if impl == implIds then "holds" else "fails the suite does not drive exactly the Reveal impls of basics/reveal.rs: " ++ implIds)
+  | ["c04.adaptive", f, _rpb, _count, _seed, prog, inputs, _c, _k, _t, _kb, _d, _rev] => do
+      let p ← primeOf f
+      let prog ← parseProg prog; let inputs ← parseInputs inputs
+      if impl.startsWith "abort" || impl == "timeout" || impl.startsWith "panic" then pure "holds abort"
+      else if impl == "untouched" then pure "fails the targeted messages were not seen / the key was not observed (attack not applied)"
+      else
+        let want := "ok " ++ showWires (evalPlainAll p (lanesOf f) prog inputs) ++ " -"
+        pure (if impl == want then "fails undetected: messages altered with the key opened by an earlier batch were accepted by every honest helper"
+              else "fails changed: errors (d, r'*d) built from the key r' opened by an EARLIER batch were accepted: validate_record returned Ok on the honest helpers and they opened a product off by d")
+  | ["c04.rbatch", _f, rpb, count, _seed, _prog, _inputs] => do
+      let rpb ← rpb.toNat?; let count ← count.toNat?
+      match impl.splitOn " " with
+      | ["r", l] =>
+        let rs := l.splitOn ","
+        if rs.length ≠ count || rpb = 0 then pure "fails malformed response" else
+        let idx := List.range count
+        let bad := idx.flatMap (fun i => (idx.filter (fun j => i < j)).filterMap (fun j =>
+          let same := rs.getD i "" == rs.getD j ""
+          if (i / rpb == j / rpb) != same then some (i, j) else none))
+        pure (match bad.head? with
+          | none => "holds"
+          | some (i, j) =>
+            if i / rpb == j / rpb then "fails records " ++ toString i ++ " and " ++ toString j ++ " of one batch see different keys"
+            else "fails batches " ++ toString (i / rpb) ++ " and " ++ toString (j / rpb) ++ " (records " ++ toString i ++ ", " ++
+              toString j ++ ") use the SAME key r = " ++ rs.getD i "" ++ ": a key opened by one batch's validation protects another batch")
+      | _ => pure "fails malformed response"
   | _ => none
 
 end IpaVerif.Driver.C04
